@@ -70,6 +70,13 @@ def jobs(tier):
             out.append(("v1.%s.P16384.aligned.%s%s" % (shape, source, ".trailing-pad" if tp else ""), "job_recheck",
                         dict(prop="C05", version=1, shape=shape, P=16384, K=2 if shape == "flat2" else 1, dmg=["intact"] * len(rk.SHAPES[shape]),
                              source=source, aligned=True, trailing_pad=tp and source == "ref")))
+    for dmg in [['intact'], ['intact', 'intact']]:          # the largest piece length the tool accepts (v1 reads a piece in one go)
+        shape = "single" if len(dmg) == 1 else "flat2"
+        out.append(("v1.%s.P33554432.%s" % (shape, "-".join(k[0] for k in dmg)), "job_recheck",
+                    dict(prop="C05", version=1, shape=shape, P=2 ** 25, K=1, dmg=dmg, source="ref")))
+    for version in (1, 2, 3):       # identical copies of one file in the tree
+        out.append(("v%d.flat2.P16384.identical-files" % version, "job_recheck",
+                    dict(prop="C05", version=version, shape="flat2", P=16384, K=2, dmg=["intact", "intact"], source="ref", dup=True)))
     out.extend(rk.matrix_rows(tier, "C05"))
     for cpath in ("root", "parent"):     # a v1 file list that is not grouped by directory (as other tools write them)
         out.append(("v1.ungrouped3.P16384.%s.ref" % cpath, "job_recheck",
